@@ -3,6 +3,7 @@ import Driver.C13
 import Rpki.Model.Slurm
 import Rpki.Model.JsonText
 import Rpki.Model.JsonRead
+import Rpki.Model.JsonPretty
 namespace Driver.C15
 open Driver Rpki.Slurm Rpki.Prefix
 
@@ -149,13 +150,13 @@ def handle (toks : List String) (impl : String) : Verdict :=
         -- oracle: the library's own text, read by the reference reader with typed leaves, is the file
         let o : Option String :=
           if impl.startsWith "ok " then
-            match parseHexN (impl.drop 3).toString with
+            match parseHexN (((impl.drop 3).toString.splitOn " ").headD "") with
             | some b => match Rpki.JsonText.readFile b with
               | some f' => if f' = f then none else some "the written text denotes a different file"
               | none => some "the written text is not read back as a file"
             | none => some "unparseable result"
           else none
-        { model := some s!"ok {hexN text}", oracle := o }
+        { model := some s!"ok {hexN text} {hexN (Rpki.JsonText.fileTextPretty f)}", oracle := o }
       | none => { model := some "err" }
     | none => badOp "tree"
   | ["jraw", hx] =>
